@@ -150,6 +150,22 @@ func Monitors(c *Case) []vh.Violation {
 			last[p] = o.Serial
 		}
 	}
+	lifecyclePanic := false
+	for _, st := range c.Steps {
+		trig := ""
+		for _, o := range st.O {
+			if o.K == "H" {
+				trig = o.Trig
+			}
+			if o.K == "F" && o.Note == "panic" && (trig == "T" || trig == "TS" || trig == "TO" || trig == "RG") {
+				lifecyclePanic = true
+			}
+		}
+	}
+	lcause := "other"
+	if lifecyclePanic {
+		lcause = "lifecycle-handler-panic"
+	}
 	// ---------------- C03: lifecycle grammar per (actor, incarnation)
 	type ai struct{ a, inst int }
 	seq := map[ai][]flat{}
@@ -168,7 +184,7 @@ func Monitors(c *Case) []vh.Violation {
 		first := s[0].Trig
 		if !(first == "L" || (first == "RD" && len(s) > 1 && s[1].Trig == "L") || (first == "RD" && len(s) == 1)) {
 			add("C03:first-not-launch", fmt.Sprintf("actor %d incarnation %d first handled %s (then %v)", k.a, k.inst, first, trigs(s)),
-				map[string]string{"first": first})
+				map[string]string{"first": first, "cause": lcause})
 		}
 		tsAt, tAt := -1, -1
 		for i, o := range s {
@@ -185,7 +201,7 @@ func Monitors(c *Case) []vh.Violation {
 			}
 			if tsAt != len(s)-1 {
 				add("C03:handled-after-own-terminated", fmt.Sprintf("actor %d incarnation %d handled %s after its own OnTerminated: %v",
-					k.a, k.inst, s[tsAt+1].Trig, trigs(s)), map[string]string{"after": s[tsAt+1].Trig})
+					k.a, k.inst, s[tsAt+1].Trig, trigs(s)), map[string]string{"after": s[tsAt+1].Trig, "cause": lcause})
 			}
 		}
 		// supervised restart: RG, T, TS on the old instance with no user message in between
@@ -235,6 +251,12 @@ func Monitors(c *Case) []vh.Violation {
 		}
 		return false
 	}
+	spawnCount := map[int]int{}
+	for _, o := range fl {
+		if o.K == "SP" {
+			spawnCount[o.Who]++
+		}
+	}
 	aliveSince := map[int]int{} // token -> step of current generation's launch, -1 if gone
 	for _, o := range fl {
 		if o.K != "H" {
@@ -246,26 +268,15 @@ func Monitors(c *Case) []vh.Violation {
 		case "TS":
 			for d, since := range aliveSince {
 				if since >= 0 && d != o.A && isDesc(d, o.A) {
+					resp := "false"
+					if spawnCount[d] > 1 {
+						resp = "true" // the descendant's address was spawned more than once (see finding C05-respawn-before-parent-notified)
+					}
 					add("C05:terminated-before-descendant", fmt.Sprintf("actor %d handled its own OnTerminated at step %d while descendant %d (launched at step %d) had not handled its own",
-						o.A, o.Step, d, since), nil)
+						o.A, o.Step, d, since), map[string]string{"respawned": resp})
 				}
 			}
 			aliveSince[o.A] = -1
-		}
-	}
-	// cause classification for the two standing findings (see known_findings.json): a panic inside a lifecycle
-	// handler of an actor that is not alive, and a re-spawn of an address before the parent has processed the
-	// previous holder's termination notice
-	lifecyclePanic := false
-	for _, st := range c.Steps {
-		trig := ""
-		for _, o := range st.O {
-			if o.K == "H" {
-				trig = o.Trig
-			}
-			if o.K == "F" && o.Note == "panic" && (trig == "T" || trig == "TS" || trig == "TO" || trig == "RG") {
-				lifecyclePanic = true
-			}
 		}
 	}
 	spawns := map[int]int{}
@@ -274,6 +285,83 @@ func Monitors(c *Case) []vh.Violation {
 			spawns[o.Who]++
 		}
 	}
+	// graceful drain: in a scenario whose terminations are ALL graceful (requests and final shutdown) and without
+	// failures, a user message that was enqueued at an actor before the graceful request reached that actor
+	// (the request reaches the target with the request itself, a descendant when its parent handles OnTerminate)
+	// must be handled, not dead-lettered
+	allGraceful := c.Scn.Final
+	for _, o := range fl {
+		if (o.K == "TR" && !o.Closed) || o.K == "F" || o.K == "DEC" {
+			allGraceful = false
+		}
+	}
+	if allGraceful {
+		reqAt := map[int]int{} // token -> first step at which a graceful terminate was enqueued at it
+		note := func(t, step int) {
+			if _, ok := reqAt[t]; !ok {
+				reqAt[t] = step
+			}
+		}
+		for _, o := range fl {
+			switch {
+			case o.K == "TR":
+				note(o.Who, o.Step)
+			case o.K == "H" && o.Trig == "T":
+				for ch, par := range parent {
+					if par == o.A {
+						note(ch, o.Step)
+					}
+				}
+			}
+		}
+		for i, st := range c.Steps {
+			if st.L.K == "shutdown" {
+				note(RefGuard, i)
+				for ch, par := range parent {
+					if par == RefGuard {
+						// the guard (not instrumented) relays when it handles its own OnTerminate, a later step; be
+						// conservative: for top-level actors only messages sent before the shutdown request are claimed
+						note(ch, i)
+					}
+				}
+			}
+		}
+		ownT := map[int]int{}
+		for _, o := range fl {
+			if o.K == "H" && o.Trig == "T" {
+				if _, ok := ownT[o.A]; !ok {
+					ownT[o.A] = o.Step
+				}
+			}
+		}
+		launched := map[int]int{}
+		for _, o := range fl {
+			if o.K == "H" && o.Trig == "L" {
+				if _, ok := launched[o.A]; !ok {
+					launched[o.A] = o.Step
+				}
+			}
+		}
+		for _, o := range fl {
+			if o.K != "D" {
+				continue
+			}
+			s0, ok := sent[key{o.Serial, o.A}]
+			if !ok {
+				continue
+			}
+			r, requested := reqAt[o.A]
+			l, wasLaunched := launched[o.A]
+			tStep, hadT := ownT[o.A]
+			if spawns[o.A] <= 1 && wasLaunched && l < s0.Step && requested && s0.Step < r && (!hadT || s0.Step < tStep) {
+				add("C05:graceful-not-drained", fmt.Sprintf("message serial %d was enqueued at actor %d (step %d) before any graceful terminate request reached it (%v) but became a dead letter",
+					o.Serial, o.A, s0.Step, reqAt[o.A]), nil)
+			}
+		}
+	}
+	// cause classification for the two standing findings (see known_findings.json): a panic inside a lifecycle
+	// handler of an actor that is not alive, and a re-spawn of an address before the parent has processed the
+	// previous holder's termination notice
 	if !stuck && !closed {
 		cause := "other"
 		if lifecyclePanic {
@@ -291,30 +379,110 @@ func Monitors(c *Case) []vh.Violation {
 		}
 		add("C05:registered-after-shutdown", fmt.Sprintf("actors still registered after shutdown: %v", regs), map[string]string{"respawned": resp})
 	}
-	// ---------------- C06: no spurious notification; at most one per watch / parenthood
-	watched := map[pair]int{}
-	gens := map[int]int{} // launches of a token (each generation can notify its parent once)
+	// ---------------- C06: exactly once
+	// For a target address that was spawned at most once (no address reuse), an observer may handle OnTerminated(target)
+	// at most: one for being its parent or having watched it while it was registered and not yet terminating, plus one
+	// for every watch request issued when the target did not exist (yet / any more) or was already terminating (each of
+	// those is answered at once). Anything above is a duplicate; a notification without any reason is spurious.
+	// first step at which the address was spawned / began a real termination (OnTerminate not part of a restart) /
+	// handled the OnTerminated that ends it (again not the one a restart delivers to the old instance)
+	spAt, tAt2, tsAt2 := map[int]int{}, map[int]int{}, map[int]int{}
+	restarting := map[ai]bool{}
+	for _, o := range fl {
+		switch {
+		case o.K == "SP":
+			if _, ok := spAt[o.Who]; !ok {
+				spAt[o.Who] = o.Step
+			}
+		case o.K == "H" && o.Trig == "RG":
+			restarting[ai{o.A, o.Inst}] = true
+		case o.K == "H" && o.Trig == "T" && !restarting[ai{o.A, o.Inst}]:
+			if _, ok := tAt2[o.A]; !ok {
+				tAt2[o.A] = o.Step
+			}
+		case o.K == "H" && o.Trig == "TS" && !restarting[ai{o.A, o.Inst}]:
+			if _, ok := tsAt2[o.A]; !ok {
+				tsAt2[o.A] = o.Step
+			}
+		}
+	}
+	type wrec struct{ inside, outside int } // requests issued while the target address was registered / was not
+	watches := map[pair]*wrec{}
 	got := map[pair]int{}
 	for _, o := range fl {
 		switch {
 		case o.K == "W":
-			watched[pair{o.A, o.Who}]++
-		case o.K == "H" && o.Trig == "L" && o.Inst >= 0:
-			gens[o.A]++
+			p := pair{o.A, o.Who}
+			if watches[p] == nil {
+				watches[p] = &wrec{}
+			}
+			sp, spawned := spAt[o.Who]
+			tt, gone := tsAt2[o.Who]
+			if spawned && sp < o.Step && (!gone || o.Step <= tt) {
+				watches[p].inside++
+			} else {
+				watches[p].outside++
+			}
 		case o.K == "H" && o.Trig == "TO":
 			got[pair{o.A, o.Who}]++
 		}
 	}
 	for p, n := range got {
-		bound := watched[p]
-		if par, ok := parent[p.rcv]; ok && par == p.snd {
-			bound += gens[p.rcv]
+		w := watches[p]
+		if w == nil {
+			w = &wrec{}
 		}
-		if bound == 0 {
+		par, hasPar := parent[p.rcv]
+		isParent := hasPar && par == p.snd
+		if !isParent && w.inside+w.outside == 0 {
 			add("C06:spurious-notification", fmt.Sprintf("actor %d handled OnTerminated(%d) %d time(s) but neither watched it nor is its parent", p.snd, p.rcv, n), nil)
-		} else if n > bound {
-			add("C06:duplicate-notification", fmt.Sprintf("actor %d handled OnTerminated(%d) %d times; it watched %d time(s), parent generations %d",
-				p.snd, p.rcv, n, watched[p], bound-watched[p]), map[string]string{"parent_watches": fmt.Sprint(watched[p] > 0 && bound > watched[p])})
+			continue
+		}
+		if spawnCount[p.rcv] > 1 {
+			continue // address reuse: several generations may each notify
+		}
+		// every watch request is answered at most once; the parent gets exactly one notice of its own and its watch
+		// requests on a registered child add nothing
+		bound := w.inside + w.outside
+		if isParent {
+			bound = 1 + w.outside
+		}
+		if n > bound {
+			add("C06:duplicate-notification", fmt.Sprintf("actor %d handled OnTerminated(%d) %d times; parent=%v, watch requests while registered=%d, other watch requests=%d",
+				p.snd, p.rcv, n, isParent, w.inside, w.outside), map[string]string{"parent": fmt.Sprint(isParent)})
+		}
+	}
+	// the sentinel (a top-level actor that only watches, see gen.go) lives until the final shutdown, so a notice that was
+	// queued for it before the shutdown request must have been handled: exactly one
+	if c.Scn.Sentinel >= 0 && !stuck {
+		sen, tgt := c.Scn.Sentinel, c.Scn.SentinelWatches
+		shut := len(c.Steps)
+		for i, st := range c.Steps {
+			if st.L.K == "shutdown" {
+				shut = i
+				break
+			}
+		}
+		wAt := -1
+		for _, o := range fl {
+			if o.K == "W" && o.A == sen && o.Who == tgt && wAt < 0 {
+				wAt = o.Step
+			}
+		}
+		if wAt >= 0 && spawnCount[tgt] <= 1 {
+			sp, spawned := spAt[tgt]
+			ts, terminated := tsAt2[tgt]
+			due := false
+			switch {
+			case !spawned || sp > wAt: // did not exist when watched: answered by the dead-letter process at once
+				due = wAt+3 < shut
+			case terminated && ts+3 < shut: // registered watcher (or late watch), target terminated well before shutdown
+				due = true
+			}
+			if due && got[pair{sen, tgt}] == 0 {
+				add("C06:missing-notification", fmt.Sprintf("sentinel %d watched %d at step %d (target spawned=%v terminated=%v at %d) and never handled OnTerminated(%d) although it lived until the shutdown at step %d",
+					sen, tgt, wAt, spawned, terminated, ts, tgt, shut), nil)
+			}
 		}
 	}
 	return v
